@@ -59,6 +59,22 @@ func VerifC01ParseAbs() {
 	compareParse(ctxAbs[ci].pre+w+ctxAbs[ci].suf, "", false)
 }
 
+// VerifC01ParseRunes: windows that contain symbolic non-ASCII scalar values (whole code space per position),
+// alone or next to an arbitrary byte, in every absolute context and as a reference against every base.
+func VerifC01ParseRunes() {
+	vnd.Cover("rune-window", true)
+	if vnd.Bool() {
+		w := mixedWindow(1 + vnd.Pick(vnd.Param("C01.KRunes", 2, 3)))
+		ci := vnd.Pick(len(ctxAbs))
+		compareParse(ctxAbs[ci].pre+w+ctxAbs[ci].suf, "", false)
+		return
+	}
+	w := mixedWindow(1 + vnd.Pick(vnd.Param("C01.KRunesRel", 1, 2)))
+	bi := vnd.Pick(len(bases))
+	ri := vnd.Pick(len(refCtx))
+	compareParse(refCtx[ri].pre+w+refCtx[ri].suf, bases[bi], true)
+}
+
 // VerifC01ParseRel: reference = shape ▸ window against each concrete base.
 func VerifC01ParseRel() {
 	bi := vnd.Pick(len(bases))
@@ -113,6 +129,7 @@ func VerifC01ParseFileRel() {
 }
 
 func init() {
+	verifHarnesses["VerifC01ParseRunes"] = VerifC01ParseRunes
 	verifHarnesses["VerifC01ParseAbsDots"] = VerifC01ParseAbsDots
 	verifHarnesses["VerifC01ParseAbsPath"] = VerifC01ParseAbsPath
 	verifHarnesses["VerifC01ParseAbsAuth"] = VerifC01ParseAbsAuth
